@@ -45,8 +45,7 @@ Qed.
 
 Hypothesis Hcalc : forall c, calc c = calc_probs c.
 
-Definition all_encodable (enc : str) (cl : list (pykey * counter O)) : bool :=
-  forallb (fun kc => encodable repr encb enc (calc_probs (snd kc))) cl.
+Local Notation all_encodable := (WriterSpec.all_encodable repr encb).
 
 (* what one iteration of the saving loop does, in terms of the translated calculate_and_save_counter *)
 Definition save_one (folder : path) (enc : str) (kc : pykey * counter O) : SM bool unit :=
@@ -63,7 +62,7 @@ Lemma save_loop (folder : path) (enc : str) (body : pykey * counter O -> unit ->
     (Norm tt, fs_write_all folder (folder_texts repr (save_indexed [] (str_keys cl))) fs).
 Proof.
   intros Hb. induction cl as [|[k c] r IH]; intros fs He; [reflexivity|].
-  cbn [all_encodable forallb snd] in He. apply andb_true_iff in He. destruct He as [He1 He2].
+  unfold WriterSpec.all_encodable in He; cbn [forallb snd] in He. apply andb_true_iff in He. destruct He as [He1 He2].
   cbn [for_eachS]. unfold bindS. rewrite Hb. unfold save_one. cbn [fst snd].
   rewrite save_counter_eq, Hcalc, He1. rewrite (IH _ He2). reflexivity.
 Qed.
@@ -74,7 +73,7 @@ Lemma save_loop_fails (folder : path) (enc : str) (body : pykey * counter O -> u
     exists fs', for_eachS cl body tt fs = (Retn false, fs').
 Proof.
   intros Hb. induction cl as [|[k c] r IH]; intros fs He; [discriminate|].
-  cbn [all_encodable forallb snd] in He.
+  unfold WriterSpec.all_encodable in He; cbn [forallb snd] in He.
   cbn [for_eachS]. unfold bindS. rewrite Hb. unfold save_one. cbn [fst snd].
   rewrite save_counter_eq, Hcalc. destruct (encodable repr encb enc (calc_probs c)) eqn:E.
   - cbn [andb] in He. apply IH. exact He.
@@ -130,17 +129,12 @@ Qed.
 
 (* ---------------------------------------------------------------- save_pcfg_data *)
 
-(* Grammar and Prince are written as ASCII, the other folders with the training encoding *)
-Definition enc_of (enc dir : str) : str :=
-  if str_eqb dir (str_of_string "Grammar") || str_eqb dir (str_of_string "Prince") then str_of_string "ASCII" else enc.
-
-Definition ruleset_encodable (enc : str) (dirs : list (str * folder O)) : bool :=
-  forallb (fun df => forallb (fun nf => encodable repr encb (enc_of enc (fst df)) (snd nf)) (snd df)) dirs.
+Local Notation ruleset_encodable := (WriterSpec.ruleset_encodable repr encb).
 
 Lemma all_encodable_files (enc : str) (cl : list (pykey * counter O)) :
   all_encodable enc cl = forallb (fun nf => encodable repr encb enc (snd nf)) (save_indexed [] (str_keys cl)).
 Proof.
-  unfold all_encodable, save_indexed, str_keys. rewrite map_map. induction cl as [|kc r IH]; [reflexivity|].
+  unfold WriterSpec.all_encodable, save_indexed, str_keys. rewrite map_map. induction cl as [|kc r IH]; [reflexivity|].
   cbn [forallb map snd]. rewrite IH. reflexivity.
 Qed.
 
@@ -168,7 +162,7 @@ Proof.
   unfold parser_of. cbn [po_count_keyboard po_count_emails po_count_email_providers po_count_website_urls
     po_count_website_hosts po_count_website_prefixes po_count_years po_count_context_sensitive po_count_alpha
     po_count_alpha_masks po_count_digits po_count_other po_count_base_structures po_count_raw_base_structures po_count_prince].
-  unfold ruleset_encodable, save_pcfg_data in He. cbn [forallb fst snd] in He.
+  unfold WriterSpec.ruleset_encodable, save_pcfg_data in He. cbn [forallb fst snd] in He.
   repeat (apply andb_true_iff in He; let H := fresh "E" in destruct He as [H He]).
   unfold enc_of in *.
   repeat match goal with
@@ -212,7 +206,7 @@ Proof.
   unfold parser_of. cbn [po_count_keyboard po_count_emails po_count_email_providers po_count_website_urls
     po_count_website_hosts po_count_website_prefixes po_count_years po_count_context_sensitive po_count_alpha
     po_count_alpha_masks po_count_digits po_count_other po_count_base_structures po_count_raw_base_structures po_count_prince].
-  unfold ruleset_encodable, save_pcfg_data in He. cbn [forallb fst snd] in He.
+  unfold WriterSpec.ruleset_encodable, save_pcfg_data in He. cbn [forallb fst snd] in He.
   unfold enc_of in He.
   repeat match goal with
          | H : context [str_eqb (str_of_string ?a) (str_of_string ?b)] |- _ =>
